@@ -21,10 +21,13 @@ func (w *world) reset(tr *vhlib.Trace) {
 func genC16(t *testing.T, tr *vhlib.Trace, r *vhlib.Rand, n int) {
 	net := vhlib.Pick(r, "v1", "v1", "v2", "v2", "mix")
 	batch := vhlib.Pick(r, 1, 1, 7, 100)
-	w := newWorld(t, net, batch, false)
+	// block timestamps ten minutes apart (as on mainnet) instead of all in one metrics bucket
+	spaced := r.Chance(1, 5)
+	w := newWorld(t, net, batch, spaced)
 	defer w.close()
 	tr.Count("net:" + net)
 	tr.Count(fmt.Sprintf("batch:%d", batch))
+	tr.Count(fmt.Sprintf("spaced:%d", vhlib.B01(spaced)))
 	w.reset(tr)
 	// fund the wallet: payouts to the host, then let some mature
 	w.doMine(tr, 2+r.Intn(4), "host", true)
@@ -34,8 +37,10 @@ func genC16(t *testing.T, tr *vhlib.Trace, r *vhlib.Rand, n int) {
 		switch x := r.Intn(100); {
 		case x < 30:
 			w.doMine(tr, 1+r.Intn(3), vhlib.Pick(r, "host", "void", "void"), r.Chance(4, 5))
-		case x < 45:
+		case x < 43:
 			w.doSend(tr, uint64(1+r.Intn(400)), vhlib.Pick(r, "void", "self"))
+		case x < 45:
+			w.doSpendMat(tr)
 		case x < 55:
 			w.doAnnounce(tr, r.Chance(1, 2))
 		case x < 85:
